@@ -75,8 +75,28 @@ func c01Pool(c *core.Ctx, maxRules int) (lines []string, specs []c01Spec) {
 			gen.AddRandomMods(c.Rng, s, gen.ModKinds{ThirdParty: true, Types: true, CTag: true, MatchCase: true}, 0.2)
 			lines = append(lines, s.Render(c.Rng))
 			specs = append(specs, c01Spec{s, ""})
-		case r < 17:
+		case r < 16:
 			lines = append(lines, c05RegexGrammar(c.Rng))
+		case r == 16:
+			// Two rules whose WHOLE texts collide under FastHash (same prefix
+			// state, identical suffix) and that have no long shortcut and no
+			// $domain: the sequential table.
+			prefix := []string{"||a", "||s", "@@||t", "|http://x", "/b", "||a.", "*x"}[c.Rng.Intn(7)]
+			groups := gen.CollidingTails(prefix)
+			if len(groups) == 0 {
+				continue
+			}
+			g := groups[c.Rng.Intn(len(groups))]
+			suffix := []string{"*.ru^", "*.com^$important", "^$ctag=a", "*z^$third-party", "*", "^|"}[c.Rng.Intn(6)]
+			for _, t := range g {
+				text := prefix + t + suffix
+				if len(prefix+t) < 3 && !strings.Contains(suffix, "$ctag") {
+					continue
+				}
+				lines = append(lines, text)
+				lit := strings.NewReplacer("||", "", "|", "", "@@", "", "*", "").Replace(prefix + t)
+				specs = append(specs, c01Spec{&gen.Spec{Pattern: prefix + t + strings.SplitN(suffix, "$", 2)[0]}, strings.TrimPrefix(lit, "http://") + "7.ru"})
+			}
 		case r == 17 && len(lines) > 0:
 			lines = append(lines, lines[c.Rng.Intn(len(lines))])
 		case r == 18:
